@@ -2528,25 +2528,26 @@ pub fn try_slatepack_sync_workflow(
 			let tor_addr = OnionV3Address::try_from(&address).unwrap();
 			// Try sending to the destination via TOR
 			let sender = match tor_sender {
-				None => {
-					if test_mode {
+				None => match (test_mode, tor_config.as_ref()) {
+					(true, _) => None,
+					(false, None) => {
+						debug!("Send (TOR): no TOR configuration, not sending");
 						None
-					} else {
-						match HttpSlateSender::with_socks_proxy(
-							&tor_addr.to_http_str(),
-							&tor_config.as_ref().unwrap().socks_proxy_addr,
-							&tor_config.as_ref().unwrap().send_config_dir,
-							tor_config.as_ref().unwrap().bridge.clone(),
-							tor_config.as_ref().unwrap().proxy.clone(),
-						) {
-							Ok(s) => Some(s),
-							Err(e) => {
-								debug!("Send (TOR): Cannot create TOR Slate sender {:?}", e);
-								None
-							}
-						}
 					}
-				}
+					(false, Some(tc)) => match HttpSlateSender::with_socks_proxy(
+						&tor_addr.to_http_str(),
+						&tc.socks_proxy_addr,
+						&tc.send_config_dir,
+						tc.bridge.clone(),
+						tc.proxy.clone(),
+					) {
+						Ok(s) => Some(s),
+						Err(e) => {
+							debug!("Send (TOR): Cannot create TOR Slate sender {:?}", e);
+							None
+						}
+					},
+				},
 				Some(s) => {
 					if test_mode {
 						None
